@@ -20,6 +20,12 @@ type MkCondSimplifier struct {
 //
 // * neg is true for the form !empty(VAR...), and false for empty(VAR...).
 func (s *MkCondSimplifier) SimplifyExpr(expr *MkExpr, fromEmpty bool, neg bool) {
+	if !fromEmpty && contains(s.MkLine.Text, "\""+expr.String()+"\"") {
+		// The parser treats the quoted "${VAR:Mpattern}" like ${VAR:Mpattern}.
+		// Replacing it inside the quotes would produce a string literal
+		// such as "${VAR} == pattern", which is always true.
+		return
+	}
 	if s.simplifyYesNo(expr, fromEmpty, neg) {
 		return
 	}
